@@ -44,6 +44,10 @@ func init() {
 		Families: func(c *mon.Config) []mon.Family {
 			return []mon.Family{
 				{Name: "cold-start", N: 1, Serial: true, Run: func(w *mon.W, _ int) {
+					if !coldFirst(w, coldPick(coldPathCalls(), "FromStr32", "PathOf/PathsOf")) {
+						return
+					}
+					defer coldLast(w, coldPick(coldPathCalls(), "FromStr32", "PathOf/PathsOf"))
 					c11All(w, "")
 					c11All(w, "\xff\xff\xff\xff\xff")
 					c11All(w, "\x00")
